@@ -21,6 +21,7 @@ import Osmium.Lemmas.Pbf
 import Osmium.Model.PbfSpec
 import Osmium.Lemmas.PbfSpecFile
 import Osmium.Lemmas.PbfSpecDec
+import Osmium.Generated.Consts
 
 namespace Osmium.Pbf
 
@@ -247,5 +248,12 @@ example : decodeFile noInflate {} (PbfSpec.encode exChoices exHeader exObjects) 
 example : decodeFile noInflate {} (PbfSpec.encode exChoices exHeader [.node { id := 1 } ⟨-3, 50⟩]) ≠
     some (exHeader, [.node { id := 1 } ⟨-3, 50⟩]) := by
   decide +kernel
+
+/-- Tie of the decoder model's limits to the CURRENT source (regenerated `Generated/Consts.lean`). -/
+theorem consts_tie_pbf_reader :
+    Osmium.PbfFraming.maxBlobHeaderSize = Osmium.Generated.Consts.pbfMaxBlobHeaderSize ∧
+    Osmium.PbfFraming.maxUncompressedBlobSize = Osmium.Generated.Consts.pbfMaxUncompressedBlobSize ∧
+    maxOsmStringLength = Osmium.Generated.Consts.maxOsmStringLength ∧
+    Osmium.Generated.Consts.pbfLonlatResolution = 1000000000 ∧ Osmium.Generated.Consts.pbfResolutionConvert = 100 := by decide
 
 end Osmium.Pbf
